@@ -241,6 +241,41 @@ def run_assembly(ctx):
     return m
 
 
+def run_write_arrays(ctx):
+    """writeArray / writeCorners / writeArrayXDirection: which entries go to the file under
+    which name (the file holds nx x ny values per variable: the last x-face / y-face / corner
+    row and column of the staggered arrays are not written)."""
+    from hypnotoad.core import mesh as M
+
+    nx, ny = 2, 2
+    m = object.__new__(M.BoutMesh)
+    a = mk.sym_mla(ctx, "g", mk.LOCS4, nx, ny, shared=False)
+    a.attributes = {"bout_type": "Field2D"}
+    for nm in ("lower_right_corners", "upper_right_corners", "upper_left_corners"):
+        arr = getattr(a, nm)
+        for idx in numpy.ndindex(*arr.shape):
+            arr[idx] = ctx.real("g_%s_%d_%d" % (nm, idx[0], idx[1]))
+    xa = mk.mla_cls()(nx, 1)
+    for i in range(nx):
+        xa.centre[i, 0] = ctx.real("xa_%d" % i)
+    xa.attributes = {"bout_type": "ArrayX"}
+    out = {}
+    f = types.SimpleNamespace(write=lambda name, val: out.__setitem__(name, val))
+    M.BoutMesh.writeArray(m, "v", a, f)
+    M.BoutMesh.writeCorners(m, "v", a, f)
+    M.BoutMesh.writeArrayXDirection(m, "w", xa, f)
+    with spec_mode():
+        want = {"v": a.centre, "v_xlow": a.xlow, "v_ylow": a.ylow, "v_corners": a.corners, "v_lower_right_corners": a.lower_right_corners, "v_upper_right_corners": a.upper_right_corners, "v_upper_left_corners": a.upper_left_corners}
+        ctx.oblige(TRUE(set(out) == set(want) | {"w"}), "variables written: name, _xlow, _ylow, the four corner arrays; the x-direction array under its own name")
+        for nm, src in want.items():
+            ctx.oblige(TRUE(nm in out and numpy.shape(out[nm]) == (nx, ny)), "%s has shape (nx, ny)" % nm)
+            if nm in out and numpy.shape(out[nm]) == (nx, ny):
+                ctx.oblige(And(*[out[nm][i, j] == src[i, j] for i in range(nx) for j in range(ny)]), "%s[i,j] is the entry [i,j] of that location (lower face / lower-left corner of cell i,j)" % nm)
+            ctx.oblige(TRUE(nm in out and getattr(out[nm], "attributes", None) == a.attributes), "%s carries the field's attributes" % nm)
+        ctx.oblige(TRUE("w" in out and numpy.shape(out["w"]) == (nx,) and all(out["w"][i].t.eq(xa.centre[i, 0].t) for i in range(nx))), "x-direction array written as a 1-d array of nx entries")
+    return out
+
+
 def build(S):
     S.under_contract(*FNS)
     S.assume("specification provenance: bout_up is written from doc/grid-file.rst and BOUT++'s BoutMesh::topology branch-cut semantics (lower X-point cuts inside ixseps1, upper X-point cuts inside ixseps2, upper target after ny_inner-1); it is a specification, not extracted from hypnotoad")
@@ -258,4 +293,6 @@ def build(S):
         S.under_contract(FN_GEO)
         S.extraction.append(dict(function="BoutMesh.geometry.addFromRegions / addFromRegionsXArray", sliced="nested defs lifted out unchanged (free variable self supplied)"))
         S.contract("geometry[assembly of global arrays]", FN_GEO, run_assembly, shape="4 regions (2x2 blocks of sizes 1x2, 2x2), all values symbolic")
+        S.under_contract("hypnotoad.core.mesh:BoutMesh.writeArray", "hypnotoad.core.mesh:BoutMesh.writeCorners", "hypnotoad.core.mesh:BoutMesh.writeArrayXDirection")
+        S.contract("writeArray/writeCorners/writeArrayXDirection", "hypnotoad.core.mesh:BoutMesh.writeArray", run_write_arrays, shape="nx=ny=2, all values symbolic")
         S.contract("dy", FNS[7], run_dy, shape="sizes symbolic", expected_exceptions=(ValueError,), raises_ok=refused_ok)
